@@ -68,15 +68,17 @@ def scf(h1, chol, na, nb, restricted, iters=4000, tol=1e-13):
     return ca, cb, dict(err=err, gap=gap, iters=it, stable=stable)
 
 
-def system(n, na, nb, nchol, seed, walker_type, scale=0.35):
-    """Hamiltonian + converged HF orbitals.  walker_type 'restricted' -> rhf trial (na == nb), else uhf."""
+def system(n, na, nb, nchol, seed, walker_type, scale=0.35, spin_dep=False):
+    """Hamiltonian + converged HF orbitals.  walker_type 'restricted' -> rhf trial (na == nb), else uhf.
+    spin_dep: the down-spin one-body matrix carries an extra symmetric (Zeeman / pinning-field like) term."""
     assert walker_type in ("restricted", "unrestricted")
     rng = np.random.default_rng(8800 + seed)
     for attempt in range(60):
         h0 = 0.2 + 0.01 * seed
         ha = np.diag(np.arange(n) * 0.9) + 0.25 * al.dense_sym(n, seed, 50 + attempt)
         chol = np.array([al.dense_sym(n, seed, 60 + 7 * attempt + g, scale) for g in range(nchol)])
-        h1 = np.array([ha, ha])
+        hb = ha + 0.3 * al.dense_sym(n, seed, 90 + attempt) if spin_dep else ha
+        h1 = np.array([ha, hb])
         ca, cb, info = scf(h1, chol, na, nb, walker_type == "restricted")
         if info["err"] < 1e-12 and info["gap"] > 0.3 and info["stable"] < 3e-9:
             return dict(n=n, na=na, nb=nb, h0=h0, h1=h1, chol=chol, ca=ca, cb=cb, info=info)
